@@ -164,6 +164,22 @@ def chain_specs() -> T.List[Spec]:
     return out
 
 
+def gendep_specs() -> T.List[Spec]:
+    """Generators with depends: on a custom target (directly or through a custom-target chain), three inputs in one process()
+    call, consumed by an executable or a library."""
+    out: T.List[Spec] = []
+    for chain in (False, True):
+        for cons in (('E', 'plain'), ('L', 'static'), ('L', 'shared')):
+            spec: T.List[Node] = [Node('H', 'plain', ())]
+            if chain:
+                spec.append(Node('K', 'plain', ((0, 'input'),)))
+            h = len(spec) - 1
+            spec.append(Node('G', 'deps', ((h, 'gdepends'),)))
+            spec.append(Node(cons[0], cons[1], ((len(spec) - 1, 'src'),)))
+            out.append(tuple(spec))
+    return out
+
+
 def placement_ok(spec: Spec, placement: str) -> bool:
     """'sub' puts H/S/G/C/K into sub/ which is entered before the root targets: not possible when one of them
     consumes a root target (K <- X)."""
@@ -339,6 +355,15 @@ def render(spec: Spec, placement: str = 'root', odd_names: bool = False, with_te
                 out.append("genhdr_%s = generator(cp, output: '@BASENAME@', arguments: ['@INPUT@', '@OUTPUT@'])" % loc)
                 gen_declared[loc + ':hdr'] = True
             out.append("%s = genhdr_%s.process('%s.h.in')" % (me, loc, me))
+        elif n.kind == 'G' and n.variant == 'deps':
+            # a generator that needs a build-time product (depends:) and processes several inputs in ONE process() call
+            (p, rel), = n.uses
+            files[d + me + '.in'] = gen_src_prelude(i) + 'int f%s(void) { return %d; }\n' % (me, value(i))
+            files[d + me + '_b.in'] = 'int f%s_b(void) { return 1; }\n' % me
+            files[d + me + '_c.in'] = 'int f%s_c(void) { return 2; }\n' % me
+            out.append("gend_%s = generator(sh, output: '@BASENAME@.c', arguments: ['-c', 'cat \"$2\" > /dev/null && cp \"$0\" \"$1\"', "
+                       "'@INPUT@', '@OUTPUT@', %s.full_path()], depends: %s)" % (me, ref(p), ref(p)))
+            out.append("%s = gend_%s.process('%s.in', '%s_b.in', '%s_c.in')" % (me, me, me, me, me))
         elif n.kind == 'G':
             files[d + me + '.in'] = gen_src_prelude(i) + 'int f%s(void) { return %d; }\n' % (me, value(i))
             if not gen_declared[loc]:
